@@ -20,7 +20,7 @@ PFX = ("/p0", "/p1")
 
 
 def budget(tier):
-    return {"quick": {"runs": 5000, "wall": 150}, "thorough": {"runs": 300000, "wall": 1500}}[tier]
+    return {"quick": {"runs": 5000, "wall": 150}, "thorough": {"runs": 60000, "wall": 900}}[tier]
 
 
 def _mark_synced(ex):
